@@ -257,6 +257,18 @@ func withSpare(v reflect.Value, extra int) reflect.Value {
 	if extra <= 0 || !v.IsValid() {
 		return v
 	}
+	return rebuild(v, extra)
+}
+
+// cloneDeep is a deep copy (pointees, slices, maps, exported struct fields).
+func cloneDeep(v reflect.Value) reflect.Value {
+	if !v.IsValid() {
+		return v
+	}
+	return rebuild(v, 0)
+}
+
+func rebuild(v reflect.Value, extra int) reflect.Value {
 	t := v.Type()
 	switch t.Kind() {
 	case reflect.Pointer:
@@ -264,7 +276,7 @@ func withSpare(v reflect.Value, extra int) reflect.Value {
 			return v
 		}
 		p := reflect.New(t.Elem())
-		p.Elem().Set(withSpare(v.Elem(), extra))
+		p.Elem().Set(rebuild(v.Elem(), extra))
 		return p
 	case reflect.Slice:
 		if v.IsNil() {
@@ -273,11 +285,11 @@ func withSpare(v reflect.Value, extra int) reflect.Value {
 		n := v.Len()
 		s := reflect.MakeSlice(t, n+extra, n+extra)
 		for i := 0; i < n; i++ {
-			s.Index(i).Set(withSpare(v.Index(i), extra))
+			s.Index(i).Set(rebuild(v.Index(i), extra))
 		}
 		for i := n; i < n+extra; i++ {
 			if n > 0 {
-				s.Index(i).Set(withSpare(v.Index(0), extra))
+				s.Index(i).Set(rebuild(v.Index(0), extra))
 			} else {
 				s.Index(i).Set(junk(t.Elem()))
 			}
@@ -286,7 +298,7 @@ func withSpare(v reflect.Value, extra int) reflect.Value {
 	case reflect.Array:
 		a := reflect.New(t).Elem()
 		for i := 0; i < v.Len(); i++ {
-			a.Index(i).Set(withSpare(v.Index(i), extra))
+			a.Index(i).Set(rebuild(v.Index(i), extra))
 		}
 		return a
 	case reflect.Map:
@@ -296,7 +308,7 @@ func withSpare(v reflect.Value, extra int) reflect.Value {
 		m := reflect.MakeMapWithSize(t, v.Len())
 		it := v.MapRange()
 		for it.Next() {
-			m.SetMapIndex(it.Key(), withSpare(it.Value(), extra))
+			m.SetMapIndex(it.Key(), rebuild(it.Value(), extra))
 		}
 		return m
 	case reflect.Struct:
@@ -304,7 +316,7 @@ func withSpare(v reflect.Value, extra int) reflect.Value {
 		out.Set(v)
 		for i := 0; i < t.NumField(); i++ {
 			if t.Field(i).IsExported() {
-				out.Field(i).Set(withSpare(v.Field(i), extra))
+				out.Field(i).Set(rebuild(v.Field(i), extra))
 			}
 		}
 		return out
